@@ -85,6 +85,37 @@ pub enum ListenerSpec {
 /// Accept-side handle of a worker (opaque wrapper).
 pub struct AcceptHandle(pub(crate) WorkerHandleAccept);
 
+impl AcceptHandle {
+    /// worker index of this handle
+    pub fn idx(&self) -> usize {
+        self.0.idx()
+    }
+
+    /// First half of `Accept::send_connection`: `next.send(conn)` only (the counter is *not*
+    /// incremented: window W1 stays open until [`AcceptHandle::inc_counter`]). `false` = the worker's
+    /// receiving end is gone.
+    pub fn send_tcp_no_inc(&self, token: usize, stream: std::net::TcpStream) -> bool {
+        let _ = stream.set_nonblocking(true);
+        let io = crate::socket::MioStream::Tcp(mio::net::TcpStream::from_std(stream));
+        self.0.send(crate::worker::Conn { io, token }).is_ok()
+    }
+
+    /// Second half of `Accept::send_connection`: `next.inc_counter()` (false = limit reached).
+    pub fn inc_counter(&self) -> bool {
+        self.0.inc_counter()
+    }
+
+    /// What `Accept::send_connection` does on success: `send` then `inc_counter`.
+    /// `None` = send failed; `Some(still_available)` otherwise.
+    pub fn send_tcp(&self, token: usize, stream: std::net::TcpStream) -> Option<bool> {
+        if self.send_tcp_no_inc(token, stream) {
+            Some(self.inc_counter())
+        } else {
+            None
+        }
+    }
+}
+
 /// Clonable handle on the waker queue: the commands the server future and the workers send.
 #[derive(Clone)]
 pub struct WakerHandle(pub(crate) WakerQueue);
